@@ -531,6 +531,28 @@ _LOGGER_CL = [
 ]
 _fam("logger", "logger", "house h\n", "logger lg", _LOGGER_CL,
      post="  log one\n    loggee .a.b\nframer f be active\nframe a\n")
+# rotation families: `cycle 0` / `size 0` are legal explicit values and must not be mistaken for "not given"
+_fam("logger/rotate", "logger", "house h\n", "logger lg", [
+    ("keep", "keep 2"),
+    ("cycle", "cycle 0"),
+    ("size", "size 0"),
+    ("flush", "flush 5"),
+    ("reuse", "reuse"),
+], post="  log one\n    loggee .a.b\nframer f be active\nframe a\n")
+_fam("logger/rotate2", "logger", "house h\n", "logger lg", [
+    ("keep", "keep 3"),
+    ("cycle", "cycle 0.0"),
+    ("size", "size 100"),
+    ("flush", "flush 0"),
+    ("at", "at 0.5"),
+], post="  log one\n    loggee .a.b\nframer f be active\nframe a\n")
+_fam("logger/rotate3", "logger", "house h\n", "logger lg", [
+    ("keep", "keep 1"),
+    ("cycle", "cycle 30"),
+    ("to", "to /tmp/verif-nolog"),
+    ("be", "be inactive"),
+    ("in", "in back"),
+], post="  log one\n    loggee .a.b\nframer f be active\nframe a\n")
 _fam("log", "log", "house h\nlogger lg\n", "  log one", [
     ("to", "to fone"),
     ("as", "as binary"),
@@ -730,6 +752,37 @@ framer mt be moot
 frame m
 framer sl be slave
 frame s
+framer f be active
+@FRAMER
+frame a
+@FRAME
+frame b in a
+frame c
+  aux ax
+"""
+# the need-spelling family builds every line to completion and needs more furniture: enter actions in an earlier
+# frame (e0), the slot's own frame (a) and later frames (b, c); a second aux framer (ay) used in a frame (s) that
+# exists only in framer sl; a frame name (a) that exists in both f and sl
+SCAFFOLD_RICH = """house h
+init .p.q with 3
+init .p.r with x 1 y 2
+init .p.io with y ".d.y"
+@TOP
+logger lg
+@LOGGER
+  log one on update
+@LOG
+    loggee .a.b
+framer ax be aux first x
+frame x
+framer ay be aux first y
+frame y
+framer mt be moot
+frame m
+framer sl be slave
+frame s
+  aux ay
+frame a
 framer f be active first a
 @FRAMER
 frame e0
@@ -752,7 +805,7 @@ SLOT_OF_VERB = dict(load="TOP", house="TOP", init="TOP", server="TOP", logger="T
                     log="LOGGER", loggee="LOG", first="FRAMER")
 
 
-def scaffold(line, slot=None):
+def scaffold(line, slot=None, rich=False):
     """Script with `line` at its verb's slot of the main scaffold (other slots empty)."""
     verb = line.split(" ", 1)[0] if line else ""
     slot = slot or SLOT_OF_VERB.get(verb, "FRAME")
@@ -761,7 +814,7 @@ def scaffold(line, slot=None):
     if slot == "EMPTY":
         return SCAFFOLD_EMPTY.replace("@HOUSE", line)
     out = []
-    for ln in SCAFFOLD.split("\n"):
+    for ln in (SCAFFOLD_RICH if rich else SCAFFOLD).split("\n"):
         if ln.startswith("@"):
             if ln[1:] == slot:
                 out.append("  " + line)
@@ -1280,9 +1333,13 @@ def gen_need_spellings():
         return []
 
     # done: taskername is done | (aux A | any | all | A) [in frame [me|F]] [in framer [me|R]] is done
-    for subj in ("ax", "sl", "zz", "me", "aux ax", "aux zz", "any", "all"):
-        for fr in ("", "in frame", "in frame me", "in frame c", "in frame a", "in frame zz"):
-            for fm in ("", "in framer", "in framer me", "in framer f", "in framer ax", "in framer zz"):
+    # frames c (aux ax), a, e0 belong to framer f (which holds the need); frame s (aux ay) exists ONLY in framer sl,
+    # frame x only in framer ax, frame a in both f and sl
+    for subj in ("ax", "ay", "sl", "zz", "me", "aux ax", "aux ay", "aux zz", "any", "all"):
+        for fr in ("", "in frame", "in frame me", "in frame c", "in frame a", "in frame s", "in frame x",
+                   "in frame zz"):
+            for fm in ("", "in framer", "in framer me", "in framer f", "in framer sl", "in framer ax",
+                       "in framer zz"):
                 yield from emit("done", [subj, fr, fm, "is done"])
     # status: taskername is (readied, started, running, stopped, aborted)
     for t in ("f", "sl", "lg", "ax", "me", "zz"):
